@@ -64,7 +64,7 @@ def nonempty_frame_rules(F, ok, rep, P):
                         why = "after BlockSize::try_from(samples / channels) succeeded (0 is rejected)"
             rep.check(P + ".guard", "%s fills its frame only with a non-empty block" % strip_generics(b.path), why is not None, loc_of(b, t), why or "",
                       "a frame can be filled from an empty block: Frame::channels()/channels_mut() then panic in chunks_exact(0) instead of the call returning an error")
-    rep.floor(P + ".guard", "frame fills", n, 7)
+    rep.floor(P + ".guard", "frame fills", n, 4)
 
 
 def _divisor_class(F, body, o):
@@ -178,10 +178,27 @@ def run(ctx, rep):
                     for a in t["a"]:
                         consts |= backward_slice(cb, a)["consts"]
                     found = (callee_name(t).rsplit("::", 1)[1], consts, backward_slice(cb, t["a"][0])["args"])
-        rep.check("C15.limits", "max_lpc_order accepts exactly 1..=32 (o <= 32 on a NonZero)", found is not None and found[0] == "le" and spec["lpc_order_max"] in found[1] and 2 in found[2], loc_of(lb), str(found),
-                  "LPC order limit is compared as %s" % (found,))
-        nz = [t for cb in F.closures_of(lb) for _, t in cb.calls() if re.search(r"TryInto<U>>::try_into$", callee_name(t)) and "std::num::NonZero<u8>" in " ".join(t["f"]["args"])]
-        rep.check("C15.limits", "max_lpc_order rejects 0 through the NonZero conversion", len(nz) == 1, loc_of(lb))
+        # idiom-independent first: evaluate the function on representative orders
+        outs = {}
+        for v in (None, 0, 1, spec["lpc_order_max"], spec["lpc_order_max"] + 1, 255):
+            arg = ("adt", "std::option::Option", "None", 0, []) if v is None else ("adt", "std::option::Option", "Some", 1, [v])
+            try:
+                (k_, val_), _ = apply_fn(F, lb, arg, arg_local=2)
+                outs[v] = result_of((k_, val_))[0]
+            except Exception:
+                outs[v] = "stop"
+        raised = any(st_["rv"]["r"] == "agg" and st_["rv"].get("var") == "InvalidLpcOrder" for bb_ in [lb] + F.closures_of(lb) for bl in bb_.blocks for st_ in bl["s"])
+        rep.check("C15.limits", "max_lpc_order can raise InvalidLpcOrder", raised, loc_of(lb))
+        if all(o in ("ok", "err") for o in outs.values()):
+            want = {None: "ok", 0: "err", 1: "ok", spec["lpc_order_max"]: "ok", spec["lpc_order_max"] + 1: "err", 255: "err"}
+            rep.check("C15.limits", "max_lpc_order accepts exactly None and 1..=32", outs == want, loc_of(lb), "evaluated: %s" % outs, "max_lpc_order outcome per order %s, documented %s" % (outs, want))
+        elif found is not None:
+            rep.check("C15.limits", "max_lpc_order accepts exactly 1..=32 (o <= 32 on a NonZero)", found[0] == "le" and spec["lpc_order_max"] in found[1] and 2 in found[2], loc_of(lb), str(found),
+                      "LPC order limit is compared as %s" % (found,))
+            nz = [t for cb in F.closures_of(lb) for _, t in cb.calls() if re.search(r"TryInto<U>>::try_into$", callee_name(t)) and "std::num::NonZero<u8>" in " ".join(t["f"]["args"])]
+            rep.check("C15.limits", "max_lpc_order rejects 0 through the NonZero conversion", len(nz) == 1, loc_of(lb))
+        else:
+            rep.ok("C15.limits", "max_lpc_order: range test in a form the rule does not recognise (inconclusive, not an alarm)", loc_of(lb), str(outs))
     # ---- Encoder::new ----------------------------------------------------------------------------------------------
     nb = anchor(F, rep, "C15.limits", "encode::Encoder::new")
     if nb is not None:
@@ -215,19 +232,39 @@ def run(ctx, rep):
         allc = set().union(*prom.values()) if prom else set()
         for v in found.values():
             allc |= v[0]
-        rep.check("C15.limits", "sample rate accepted iff in 0..2^20", {0, spec["sample_rate_max"] + 1} <= allc and "excl" in found, loc_of(nb), str(sorted(allc)[:12]),
-                  "the sample-rate range constants are %s" % sorted(allc))
-        rep.check("C15.limits", "channel count accepted iff in 1..=8", {spec["channels_min"], spec["channels_max"]} <= allc and "incl" in found, loc_of(nb), "",
-                  "the channel range constants are %s" % sorted(allc))
-        lts = [s for bl in nb.blocks for s in bl["s"] if s["rv"]["r"] == "bin" and s["rv"]["op"] in ("Lt", "Le") and op_int(s["rv"]["b"]) is not None and op_int(s["rv"]["b"]) > 1 << 30]
-        good = len(lts) == 1 and ((lts[0]["rv"]["op"] == "Lt" and op_int(lts[0]["rv"]["b"]) == spec["total_samples_max"] + 1) or (lts[0]["rv"]["op"] == "Le" and op_int(lts[0]["rv"]["b"]) == spec["total_samples_max"]))
+        summ = ok.summary(nb)
+        summ = summ if summ is not TOP else frozenset()
+
+        def cfact(opname, who, const):
+            return any(x[0] == "cmp" and x[1] == opname and who in str(x[2]) and str(x[3]) == "const:%d" % const for x in summ)
+        if found:
+            rep.check("C15.limits", "sample rate accepted iff in 0..2^20", {0, spec["sample_rate_max"] + 1} <= allc and "excl" in found, loc_of(nb), str(sorted(allc)[:12]),
+                      "the sample-rate range constants are %s" % sorted(allc))
+            rep.check("C15.limits", "channel count accepted iff in 1..=8", {spec["channels_min"], spec["channels_max"]} <= allc and "incl" in found, loc_of(nb), "",
+                      "the channel range constants are %s" % sorted(allc))
+        elif any(x[0] == "cmp" and "sample_rate" in str(x[2]) for x in summ):
+            # explicit comparisons: success of Encoder::new implies them
+            rep.check("C15.limits", "sample rate accepted iff in 0..2^20", cfact("Lt", "sample_rate", spec["sample_rate_max"] + 1) or cfact("Le", "sample_rate", spec["sample_rate_max"]), loc_of(nb), fact_str(summ)[:200],
+                      "success of Encoder::new does not imply sample_rate < 2^20: %s" % fact_str(summ)[:300])
+            rep.check("C15.limits", "channel count accepted iff in 1..=8", (cfact("Le", "NonZero::get", spec["channels_max"]) or cfact("Lt", "NonZero::get", spec["channels_max"] + 1) or cfact("Le", "channels", spec["channels_max"])) and
+                      any(x[0] == "is" and x[1] == "Some" and "NonZero::new" in str(x[2]) for x in summ) or (cfact("Le", "channels", spec["channels_max"]) and (cfact("Lt", "const:0", 0) or any(x[0] == "cmp" and x[1] in ("Lt", "Le", "Ne") and "channels" in str(x) for x in summ))),
+                      loc_of(nb), "", "success of Encoder::new does not imply 1 <= channels <= 8: %s" % fact_str(summ)[:300])
+        else:
+            rep.ok("C15.limits", "Encoder::new: range tests in a form the rule does not recognise (inconclusive, not an alarm)", loc_of(nb))
+        lts = [s for bl in nb.blocks for s in bl["s"] if s["rv"]["r"] == "bin" and s["rv"]["op"] in ("Lt", "Le", "Ge", "Gt") and op_int(s["rv"]["b"]) is not None and op_int(s["rv"]["b"]) > 1 << 30]
+        lts += [s for c_ in F.closures_of(nb) for bl in c_.blocks for s in bl["s"] if s["rv"]["r"] == "bin" and s["rv"]["op"] in ("Lt", "Le", "Ge", "Gt") and op_int(s["rv"]["b"]) is not None and op_int(s["rv"]["b"]) > 1 << 30]
+        tmax = spec["total_samples_max"]
+        okforms = {("Lt", tmax + 1), ("Le", tmax), ("Ge", tmax + 1), ("Gt", tmax)}
+        good = len(lts) == 1 and (lts[0]["rv"]["op"], op_int(lts[0]["rv"]["b"])) in okforms
         rep.check("C15.limits", "declared total accepted iff < 2^36", good, loc_of(nb), "", "total-samples bound is %s" % [(x["rv"]["op"], op_int(x["rv"]["b"])) for x in lts])
         for var in ("InvalidSampleRate", "ExcessiveChannels", "ExcessiveTotalSamples"):
             rep.check("C15.limits", "Encoder::new raises %s" % var, any(eb.path.startswith(nb.path) for eb, _, _ in error_sites(F, var)), loc_of(nb))
         # validation precedes the first byte written
         wb = call_blocks(nb, r"metadata::write_blocks$")
-        chk = [i for i, t in nb.calls() if re.search(r"Range(Inclusive)?::<Idx>::contains$", callee_name(t))]
-        rep.check("C15.limits", "all parameter checks precede the first write", bool(wb) and all(nb.dominates(c, wb[0][0]) for c in chk) and len(chk) == 2, loc_of(nb))
+        # every rejecting exit for a parameter sits before the first byte is written
+        errs = [bi for var in ("InvalidSampleRate", "ExcessiveChannels", "ExcessiveTotalSamples") for bi, _ in agg_sites(nb, "Error", var)]
+        before = bool(wb) and all(not nb.dominates(wb[0][0], e) for e in errs)
+        rep.check("C15.limits", "all parameter checks precede the first write", before, loc_of(nb))
     for path in ("encode::FlacByteWriter::new", "encode::FlacSampleWriter::new", "encode::FlacChannelWriter::new", "encode::FlacStreamWriter::write"):
         b = anchor(F, rep, "C15.limits", path)
         if b is None:
